@@ -639,6 +639,18 @@ func (g *gen) doLoopHead(ci *cfgInfo, h *ssa.BasicBlock, conds []string, preds [
 	g.cur = newState
 	if all {
 		g.havocHeapKeepingStable()
+		// locals allocated before the loop and written inside it are not stable across iterations
+		var as []*ssa.Alloc
+		for a := range g.loopLocalStores[h] {
+			as = append(as, a)
+		}
+		sort.Slice(as, func(i, j int) bool { return as[i].Pos() < as[j].Pos() })
+		for _, a := range as {
+			if addr, ok := g.allocAddr[a]; ok {
+				et := a.Type().Underlying().(*types.Pointer).Elem()
+				g.storeAt(addr, et, g.freshOfType(et, "lploc").S)
+			}
+		}
 	}
 	for _, c := range g.compList {
 		if mods[c] && !(all && strings.HasPrefix(c, "H")) {
@@ -650,6 +662,11 @@ func (g *gen) doLoopHead(ci *cfgInfo, h *ssa.BasicBlock, conds []string, preds [
 			}
 		}
 	}
+	// the allocation counter at the head: everything allocated in this iteration lies above it
+	if g.loopNalloc == nil {
+		g.loopNalloc = map[*ssa.BasicBlock]string{}
+	}
+	g.loopNalloc[h] = g.nalloc()
 	phiVals := map[*ssa.Phi]T{}
 	for _, phi := range phis {
 		t := g.freshOfType(phi.Type(), mangle(phi.Name()))
@@ -712,6 +729,17 @@ func (g *gen) loopMods(ci *cfgInfo, h *ssa.BasicBlock) (map[string]bool, bool) {
 				// nothing from one iteration to the next: it does not change the state seen at the head
 				if a := rootAlloc(x.Addr); a != nil && g.stable[a] && ci.body[h][a.Block()] {
 					continue
+				}
+				// a store into a local that was allocated before the loop changes what the head sees, also
+				// when that local has not escaped (the wholesale heap havoc below keeps such locals)
+				if a := rootAlloc(x.Addr); a != nil && !ci.body[h][a.Block()] {
+					if g.loopLocalStores == nil {
+						g.loopLocalStores = map[*ssa.BasicBlock]map[*ssa.Alloc]bool{}
+					}
+					if g.loopLocalStores[h] == nil {
+						g.loopLocalStores[h] = map[*ssa.Alloc]bool{}
+					}
+					g.loopLocalStores[h][a] = true
 				}
 				for _, c := range g.storeComps(x) {
 					mods[c] = true
